@@ -223,54 +223,44 @@ fn check_interface(ctx: &mut Ctx, case: u64, lib: &Library, types: &Types, dir: 
             None => ctx.violation(case, &format!("C08:use-provenance-lost:{dir}"), format!("{dir} `{name}`: type `{local}` is used from `{}` but the decoded interface records no use", u.source_id), input.clone()),
             Some(used) => {
                 let src_id = types[used.interface].id.clone().unwrap_or_default();
-                // the ultimate owner of the type may be further up the chain of uses
-                let chain_ok = src_id == u.source_id || model_compatible(&src_id, &u.source_id) || {
-                    let mut ok = false;
-                    let mut cur = u.source_id.clone();
-                    let mut cur_name = u.name.clone();
-                    for _ in 0..10 {
-                        let Some(si) = witgen::find_iface(pkgs, &cur) else { break };
-                        match si.uses.iter().find(|x| x.as_name.as_deref().unwrap_or(&x.name) == cur_name) {
-                            Some(x) => {
-                                cur = x.source_id.clone();
-                                cur_name = x.name.clone();
-                                if cur == src_id || model_compatible(&cur, &src_id) {
-                                    ok = true;
-                                    break;
-                                }
-                            }
-                            None => break,
-                        }
-                    }
-                    ok
-                };
+                // the owner of the type may be further up the chain of uses and aliases
+                let chain = provenance_chain(pkgs, &u.source_id, &u.name);
+                let chain_ok = chain.iter().any(|(i, _)| *i == src_id || model_compatible(i, &src_id));
                 if !chain_ok {
                     ctx.violation(case, &format!("C08:use-provenance-wrong-interface:{dir}"), format!("{dir} `{name}`: type `{local}` is recorded as used from `{src_id}`, the model says `{}`", u.source_id), input.clone());
                 } else {
                     ctx.count("use-provenance-checked");
                 }
                 let orig = used.name.clone().unwrap_or_else(|| local.to_string());
-                // original name along the chain: any of the names the type had on the way
-                let mut names = vec![u.name.clone()];
-                let mut cur = u.source_id.clone();
-                let mut cur_name = u.name.clone();
-                for _ in 0..10 {
-                    let Some(si) = witgen::find_iface(pkgs, &cur) else { break };
-                    match si.uses.iter().find(|x| x.as_name.as_deref().unwrap_or(&x.name) == cur_name) {
-                        Some(x) => {
-                            cur = x.source_id.clone();
-                            cur_name = x.name.clone();
-                            names.push(cur_name.clone());
-                        }
-                        None => break,
-                    }
-                }
+                // original name: any of the names the type had on the way
+                let names: Vec<String> = chain.iter().map(|(_, n)| n.clone()).collect();
                 if !names.contains(&orig) {
                     ctx.violation(case, &format!("C08:use-provenance-wrong-name:{dir}"), format!("{dir} `{name}`: type `{local}` is recorded as `{orig}` of `{src_id}`, the model says one of {names:?}"), input.clone());
                 }
             }
         }
     }
+}
+
+
+/// The (interface id, type name) pairs a used type passes through on the way to its owner:
+/// `use` edges and `type a = b` aliases of named types (an alias is the same type, `(eq b)`).
+fn provenance_chain(pkgs: &[Pkg], start_iface: &str, start_name: &str) -> Vec<(String, String)> {
+    let mut out = vec![(start_iface.to_string(), start_name.to_string())];
+    let (mut cur, mut cur_name) = (start_iface.to_string(), start_name.to_string());
+    for _ in 0..20 {
+        let Some(si) = witgen::find_iface(pkgs, &cur) else { break };
+        if let Some(x) = si.uses.iter().find(|x| x.as_name.as_deref().unwrap_or(&x.name) == cur_name) {
+            cur = x.source_id.clone();
+            cur_name = x.name.clone();
+        } else if let Some((_, TypeDef::Alias(Ty::Named(n)))) = si.types.iter().find(|(n, _)| *n == cur_name) {
+            cur_name = n.clone();
+        } else {
+            break;
+        }
+        out.push((cur.clone(), cur_name.clone()));
+    }
+    out
 }
 
 fn check_component(ctx: &mut Ctx, case: u64, lib: &Library, ci: usize) {
